@@ -117,6 +117,12 @@ impl Monitor for C05 {
                 }
                 None => {
                     out.probe("c05.untracked");
+                    if holders.len() > 1 {
+                        out.probe("c05.untracked_two_holders");
+                        if holders.iter().any(|h| find_view(ctx.pre, *h).is_some_and(|v| v.window == 1000)) {
+                            out.probe("c05.untracked_two_holders_one_at_floor");
+                        }
+                    }
                     if let Some(r) = removed_from
                         && !holders.contains(r)
                     {
